@@ -21,6 +21,14 @@ TRUSTED_BASE = [
 def run_check(prop_mod, prop_id, tier, replay=None):
     ctx = Ctx(prop_id, tier)
     rc = 1
+    if replay is None:
+        # replays of earlier runs of this property would only mislead; this run writes its own
+        import glob
+        for old in glob.glob(os.path.join(core.VERIF, "replays", prop_id + "-*.json")):
+            try:
+                os.remove(old)
+            except OSError:
+                pass
     try:
         rc = _run(ctx, prop_mod, replay)
     finally:
